@@ -275,7 +275,12 @@ impl Property for C10 {
             case.opts.push(vec![format!("--skip={}", rng.below(3))]);
         }
         if rng.chance(1, 5) {
-            case.opts.push(vec![format!("--take={}", rng.range(1, 6))]);
+            if rng.chance(1, 6) {
+                // the "no limit" idiom
+                case.opts.push(vec![format!("--take={}", rng.pick(&[u64::MAX, 1u64 << 62, 1u64 << 50]))]);
+            } else {
+                case.opts.push(vec![format!("--take={}", rng.range(1, 6))]);
+            }
         }
         if rng.chance(1, 6) {
             // a sorter downstream, on a key that is coarser than the row
@@ -684,6 +689,40 @@ fn gen_computed(rng: &mut Rng, tier: Tier) -> Case {
         case.hash_seeds = (0..2).map(|_| rng.next_u64() >> 1).collect();
         case.delivery = gen_delivery(rng, case.stream().len());
         case.set("bigs", 1);
+        return case;
+    }
+    // one scenario in twenty: more than 64 columns, every record filling one or two of them
+    // (which columns are present is part of the row)
+    if rng.chance(1, 20) {
+        let cols = rng.range(66, 72);
+        case.pieces.clear();
+        let m = rng.range(3, 9);
+        for i in 0..m {
+            let pick_col = |rng: &mut Rng| match rng.below(3) {
+                0 => rng.below(4),
+                1 => cols - 1 - rng.below(4),
+                _ => rng.below(cols),
+            };
+            let mut ms: Vec<(String, Val)> = Vec::new();
+            let a = pick_col(rng);
+            ms.push((format!("c{a}"), Val::Int(1)));
+            if rng.chance(1, 3) {
+                let b = pick_col(rng);
+                if b != a {
+                    ms.push((format!("c{b}"), Val::Str("x".into())));
+                }
+            }
+            case.pieces.push(Piece::rec(spell(&Val::Obj(ms), rng, 1), i as u32));
+            case.pieces.push(Piece::gap(vec![b'\n']));
+        }
+        for c in 0..cols {
+            case.opts.push(vec!["--select".into(), format!(".c{c}=c{c}")]);
+        }
+        case.opts.push(vec!["--style=consise".into()]);
+        case.opts.push(vec!["--utf8-strings".into()]);
+        case.hash_seeds = (0..2).map(|_| rng.next_u64() >> 1).collect();
+        case.delivery = gen_delivery(rng, case.stream().len());
+        case.set("columns", cols as i64);
         return case;
     }
     // one scenario in six: the rows are values of the pool themselves (look-alikes sit next
